@@ -20,6 +20,10 @@ GROUPS = {
     'aperture': ['aperture_photometry', 'ApertureStats'],
     'peaks': ['find_peaks'],
     'starfinders': ['DAOStarFinder', 'IRAFStarFinder', 'StarFinder'],
+    # no zero margin: sources right up to the border of the ORIGINAL frame, exclude_border / border_width /
+    # min_separation / box_size drawn independently; rows judged when their documented footprint is inside the frame
+    'starfinders_border': ['DAOStarFinder', 'IRAFStarFinder', 'StarFinder'],
+    'peaks_border': ['find_peaks'],
     'segm': ['detect_sources', 'deblend_sources'],
     'catalog': ['SourceCatalog'],
     'catalog_hostile': ['SourceCatalog'],      # scenes with tiny / corner-peaked / ragged / peak-masked / fully masked segments
@@ -31,7 +35,8 @@ GROUPS = {
 CLASSES = ['translate:aperture', 'translate:catalog', 'transpose:catalog', 'translate:peaks',
            'translate:starfinders', 'transpose:aperture', 'translate:segm', 'translate:profiles',
            'transpose:centroids', 'translate:model', 'transpose:profiles', 'translate:psf',
-           'translate:catalog_hostile', 'transpose:catalog_hostile', 'translate:centroids']
+           'translate:catalog_hostile', 'transpose:catalog_hostile', 'translate:centroids',
+           'translate:starfinders_border', 'translate:peaks_border']
 CLASSES = list(dict.fromkeys(CLASSES))     # unique, order kept
 
 RULE = ('one case = one random scene (3-8 elliptical Gaussians with random orientation and unequal fluxes + '
@@ -168,6 +173,65 @@ def _pixel_ok(shape, rows, keep):
     return ok
 
 
+MATCH_ROWS = {'find_peaks': ('x_peak', 'y_peak'), 'DAOStarFinder': ('xcentroid', 'ycentroid'),
+              'IRAFStarFinder': ('xcentroid', 'ycentroid'), 'StarFinder': ('xcentroid', 'ycentroid')}
+
+
+def match_rows(case, ep, out1, rows1, out2, rows2, box1, box2, dx, dy, mech0):
+    """Detection tables near the frame border: a source whose documented footprint leaves the original frame may
+    legitimately be present in one frame only (exclude_border / border_width act on the array that is passed). Rows
+    whose footprint is inside the original frame are selected in EACH leg and matched by position (<= 0.51 px after
+    the shift); they must correspond one to one. Returns the two tables reduced to the matched rows in base order;
+    `id` and the row count are dropped when any row was left out (ids are consecutive numbers of the full table)."""
+    xn, yn = MATCH_ROWS[ep.name]
+    k1 = epm.rows_inside(rows1, box1)
+    k2 = epm.rows_inside(rows2, box2)
+    case.note(f'border_rows_unjudged:{ep.name}', int((~k1).sum() + (~k2).sum()))
+    if len(rows1) == 0 and len(rows2) == 0:
+        return out1, rows1, out2, rows2
+    def xy(out, k):
+        if len(k) == 0:
+            return np.zeros((0, 2))
+        return np.column_stack([np.asarray(epm.split_unit(out[xn])[0], float),
+                                np.asarray(epm.split_unit(out[yn])[0], float)])[k]
+    p1, p2 = xy(out1, k1) + np.array([dx, dy], float), xy(out2, k2)
+    ok = len(p1) == len(p2)
+    order = np.zeros(len(p1), int)
+    if ok and len(p1):
+        d = np.hypot(p1[:, None, 0] - p2[None, :, 0], p1[:, None, 1] - p2[None, :, 1])
+        order = d.argmin(axis=1)
+        ok = bool(np.all(d[np.arange(len(p1)), order] <= 0.51)) and len(set(order.tolist())) == len(p1)
+    if not case.check(ok, 'row_count', dict(mech0, output='*'), base_inside=len(p1), related_inside=len(p2),
+                      base_xy=p1, related_xy=p2, why='rows with a footprint inside the original frame do not correspond'):
+        return None
+    partial = (not k1.all()) or (not k2.all())
+    def reduce(out, k, idx=None):
+        new = {}
+        for name, v in out.items():
+            kk = ep.spec[name]
+            if not kk.per_row or kk.kind == 'skip':
+                if not partial:
+                    new[name] = v
+                continue
+            if partial and name == 'id':
+                continue
+            val, unit = epm.split_unit(v)
+            val = np.asarray(val)[k]
+            if idx is not None:
+                val = val[idx]
+            new[name] = val if unit is None else val * __import__('astropy.units', fromlist=['Unit']).Unit(unit)
+        return new
+    o1, o2 = reduce(out1, k1), reduce(out2, k2, order)
+    r1 = np.asarray(rows1, float).reshape(-1, 4)[k1]
+    r2 = np.asarray(rows2, float).reshape(-1, 4)[k2][order] if len(p1) else np.zeros((0, 4))
+    if not o1.keys() == o2.keys():
+        # one leg returned None (no detection at all) while the other has only unjudged rows
+        common = set(o1) & set(o2)
+        o1 = {k: v for k, v in o1.items() if k in common}
+        o2 = {k: v for k, v in o2.items() if k in common}
+    return o1, r1, o2, r2
+
+
 def compare_ep(case, ep, rel, res1, res2, box1, box2, pads, atol_free, amp=1.0, opts=None):
     out1, rows1 = res1[0], res1[1]
     out2, rows2 = res2[0], res2[1]
@@ -179,6 +243,11 @@ def compare_ep(case, ep, rel, res1, res2, box1, box2, pads, atol_free, amp=1.0, 
     if opts is not None and opts.get('moved') is not None:
         mech0['moved'] = opts['moved']
         case.note(f"moved_object:{ep.name}:{opts['moved']}")
+    if ep.name in MATCH_ROWS and rows1 is not None and rel == 'translate':
+        m = match_rows(case, ep, out1, rows1, out2, rows2, box1, box2, dx, dy, mech0)
+        if m is None:
+            return 0
+        out1, rows1, out2, rows2 = m
     k1, k2 = set(out1) - {'_asserts'}, set(out2) - {'_asserts'}
     if not case.check(k1 == k2, 'outputs_present', dict(mech0, output='*'),
                       only_base=sorted(k1 - k2), only_related=sorted(k2 - k1)):
@@ -224,6 +293,12 @@ def compare_ep(case, ep, rel, res1, res2, box1, box2, pads, atol_free, amp=1.0, 
         r1, r2 = out1[src], out2[name]
         if isinstance(r1, epm.Raised) or isinstance(r2, epm.Raised):
             r = r1 if isinstance(r1, epm.Raised) else r2
+            if isinstance(r1, epm.Raised) and isinstance(r2, epm.Raised) and r1.exc == r2.exc \
+                    and (case.params.get('axes') or {}).get('degenerate') is not None:
+                # degenerate input (everything masked / nothing detected), same exception in both frames and no
+                # documented behaviour: counted, not judged
+                case.note(f'degenerate_raised_both:{ep.name}:{r.at}')
+                continue
             case.check(False, 'raised', dict(mech, exc=r.exc, at=r.at), msg=r.msg,
                        base_raised=isinstance(r1, epm.Raised), related_raised=isinstance(r2, epm.Raised))
             continue
@@ -231,7 +306,8 @@ def compare_ep(case, ep, rel, res1, res2, box1, box2, pads, atol_free, amp=1.0, 
         co, uo = epm.canon(k.kind, out2[name])
         case.check(ub == uo, 'unit', mech, base=ub, related=uo)
         rtol = FREE_RTOL if k.rtol is None else k.rtol
-        atol = atol_free if k.atol is None else k.atol
+        atol = (atol_free if k.scale == 'data' else 1e-10 * amp * amp if k.scale == 'data2' else 1e-10) \
+            if k.atol is None else k.atol
         if k.aamp is not None:
             atol = k.aamp * amp
         if k.kind in epm.POS_KINDS and k.atol is None:
@@ -304,7 +380,16 @@ def build_case(case):
     # segments / masks that force the documented fallback branches (failed quadratic fit -> barycentre, Kron radius
     # below the minimum, fully masked or single-pixel source): always in the *_hostile classes, 30 % elsewhere
     hostile = group == 'catalog_hostile' or (group in ('catalog', 'aperture') and rng.random() < 0.3)
-    scene = gen.make_scene(rng, flavour=flav, nonfinite=nonfinite, nsrc=nsrc, hostile=hostile)
+    border = group.endswith('_border')
+    scale = gen.draw_scale(rng)                      # generic axis (i): magnitude of every value-like input
+    layout2 = [None, None, None, 'fortran', 'negstride', 'sliced', 'bigendian'][int(rng.integers(0, 7))]
+    degenerate = [None] * 24 + ['nothing_detected', 'all_masked']
+    degenerate = degenerate[int(rng.integers(0, len(degenerate)))]
+    kw = dict(margin=0, edge=1.5) if border else {}
+    scene = gen.make_scene(rng, flavour=flav, nonfinite=nonfinite, nsrc=nsrc, hostile=hostile, scale=scale, **kw)
+    scene['axes'] = dict(scale=scale, layout2=layout2, degenerate=degenerate, border=border)
+    if degenerate == 'all_masked' and group in ('aperture', 'catalog', 'catalog_hostile', 'profiles'):
+        scene['mask'] = gen.Frame(np.ones(scene['mask'].v.shape, bool), False)
     for ep in eps:
         scene['opts'][ep.name] = ep.prepare(rng, scene)
         if ep.name in ('aperture_photometry', 'ApertureStats') and rel == 'translate':
@@ -314,6 +399,19 @@ def build_case(case):
             if md_ is not None:
                 scene['opts'][ep.name]['moved'] = md_
                 scene['opts'][ep.name]['holder'] = epm.Holder()
+        o_ = scene['opts'][ep.name]
+        if border:
+            # a "keep the N brightest" selection is not local: with rows legitimately missing near the border of one
+            # frame the selected sets differ
+            for kk in ('brightest', 'npeaks'):
+                if kk in o_:
+                    o_[kk] = None
+        if degenerate == 'nothing_detected' and 'threshold' in o_:
+            o_['threshold'] = o_['threshold'] * 1e6
+            if o_.get('thr_map') is not None:
+                o_['thr_map'] = gen.Frame(o_['thr_map'].v * 1e6)
+        if degenerate == 'all_masked' and 'use_mask' in o_:
+            o_['use_mask'] = True
         if ep.name == 'PSFPhotometry':
             # IterativePSFPhotometry (used by C15) re-detects sources in the residual image: those faint second-pass
             # fits have position errors of 1-3 px and amplify the fit noise beyond any useful tolerance
@@ -332,14 +430,20 @@ def run_case(case):
     d = scene['data'].v
     case.params = dict(relation=rel, group=group, shape=list(d.shape), nsrc=len(scene['src'].v),
                        nlabels=scene['nlabels'], pads=list(pads), dx=pads[0], dy=pads[2],
-                       nonfinite=scene['nonfinite'], hostile=scene['hostile'])
+                       nonfinite=scene['nonfinite'], hostile=scene['hostile'], axes=scene['axes'])
     case.digest = core.digest([core.arr_digest(*gen.scene_digest_arrays(scene), np.array(pads)), case.cls])
-    atol_free = 1e-10 * max(1.0, scene['amp'])
+    atol_free = 1e-10 * scene['amp']
     npos = 0
     for ep in eps:
         if rel not in ep.relations:
             continue
         s1, s2 = gen.unwrap(scene), gen.unwrap(scene2)
+        ax = scene['axes']
+        if ax['layout2'] is not None:
+            # generic axis (iii): the related leg additionally gets its arrays in another memory layout
+            for kk in ('data', 'error', 'bkg', 'conv', 'data2', 'mask', 'segm'):
+                if isinstance(s2.get(kk), np.ndarray) and not (ax['layout2'] == 'bigendian' and s2[kk].dtype.kind == 'b'):
+                    s2[kk] = gen.represent(s2[kk], ax['layout2'])
         r1 = _call(case, ep, s1, s1['opts'][ep.name], rel, 'base')
         r2 = _call(case, ep, s2, s2['opts'][ep.name], rel, 'related')
         if r1 is None or r2 is None:
@@ -347,4 +451,8 @@ def run_case(case):
         case.note(f'runs:{ep.name}:{rel}')
         npos += compare_ep(case, ep, rel, r1, r2, s1['frame'], s2['frame'], pads, atol_free, amp=scene['amp'],
                            opts=s1['opts'][ep.name])
+    ax = scene['axes']
+    case.note('axis_magnitude:' + ('1' if ax['scale'] == 1.0 else 'pow2' if np.log2(ax['scale']) % 1 == 0 else 'pow10'))
+    case.note(f"axis_layout_related_leg:{ax['layout2']}")
+    case.note(f"axis_degenerate:{ax['degenerate']}")
     case.nontrivial = npos > 0
